@@ -22,6 +22,7 @@
    represents every label (lemmas step_canon_l/r, dead_label). *)
 From Coq Require Import String.
 From V Require Import Lib.Base Lib.Automata.
+(* end of imports *)
 Local Open Scope N_scope.
 
 Definition rel := list (N * N).
